@@ -247,9 +247,17 @@ static int rp_stub_fe_set_b32_limit(secp256k1_fe *r, const unsigned char *a) {
  * struct-assigned to the destination; avoids writes through a pointer to a sub-object of pubs[npub] at a
  * symbolic index (CBMC turns those into byte_updates of the whole 16 KB array). */
 static void rp_adapt_gej_set_ge(secp256k1_gej *r, const secp256k1_ge *a) {
+#ifdef RP_GEJ_SET_GE_FRAME
+    /* gates units (pubs[] content is irrelevant there: expansion and ring equation are oracles): bounds obligation +
+     * frame over-approximated to the whole destination object - one fresh array instead of a 16 KB multiplexer per digit */
+    secp256k1_ge u = *a; (void)u;
+    RP_PRE(__CPROVER_w_ok(r, sizeof(*r)), "gej_set_ge destination writable");
+    __CPROVER_havoc_object(r);
+#else
     secp256k1_gej t;
     secp256k1_gej_set_ge(&t, a);
     *r = t;
+#endif
 }
 #endif
 
